@@ -5,6 +5,7 @@ exact rationals sample_rate / bin_size / window_size (dyadic, so that phylib's f
 The implementation receives  times = samples / rate  (checked here to be exact floats whose product with
 the rate is exactly the sample again)."""
 import itertools
+import os
 from fractions import Fraction as F
 
 from .. import coqenc as q
@@ -20,7 +21,9 @@ RULE = ('exhaustive small scope: every non-decreasing spike train up to the tier
         'are and are not a multiple of 2*bin; firing_rate over all labellings x id orders x dyadic '
         'bin/duration; then a seeded random stream of long trains (many equal times, up to 300 (quick) / 2000 '
         '(thorough) spikes, dyadic and non-dyadic sample rates with exact time*rate, spike times handed over as float64 / '
-        'float32 arrays or Python lists, symmetrize given or left to its default). Non-trivial = at least '
+        'float32 arrays or Python lists, symmetrize given or left to its default); trains of n coincident spikes of one '
+        'cluster (n up to 300 / 3000; 65537 = the failing input of the repaired int32 defect only with VT_C15_BIG=1) judged '
+        'against the closed form of C15_coincident. Non-trivial = at least '
         'one pair of spikes falls inside the window (some count is non-zero) / at least two spikes for '
         'firing_rate; distinct = distinct abstract input.')
 EXHAUSTIVE = {'quick': True, 'thorough': True}
@@ -42,9 +45,17 @@ TRUSTED = ['NumPy: astype(int64) of exact products, //, boolean-mask indexing, r
 ASSUMES = ['spike times non-decreasing and on the sample grid (time*rate exact), one label per spike',
            'cluster_ids (when given) distinct, non-negative and containing every label; labels non-negative',
            'binsize = floor(rate*bin) >= 1; 2^-12 <= bin_size, window_size <= 2^12 (np.clip is the identity)',
-           'at most 65536 spikes (C15_count_bound: no count of the int32 array can wrap); firing_rate: bin > 0, '
+           'at most 2^32 spikes (C15_int64_exact: no count of the int64 array can wrap); firing_rate: bin > 0, '
            'duration >= 0 (0/None mean 1), exact float products']
 TIMEOUT = {'quick': 20, 'thorough': 60}
+# VT_C15_BIG=1 adds the failing input of the repaired int32 defect to either tier: 65537 coincident spikes of one
+# cluster (true zero-lag count 2147516416 > 2^31 - 1; the unrepaired code returned -2147450880), one-sided and
+# symmetrised.  Each call takes 30-40 s on an idle machine (65536 shifts over 65537 spikes) and several minutes on a
+# loaded one, so the two cases are NOT part of the default tiers (a per-case time-out would be a false alarm); with
+# the switch the per-case limit is 30 minutes.  Judged by Corr.v against the closed form of C15_coincident.
+BIG = bool(os.environ.get('VT_C15_BIG'))
+if BIG:
+    TIMEOUT = {'quick': 1800, 'thorough': 1800}
 # the float constants of np.clip(x, 1e-5, 1e5) modelled in PV.C15.ParamsModel (clip_lo_f, clip_hi); C15_clip_constant
 # proves that the first is a float nearest to 10^-5
 assert (1e-5).as_integer_ratio() == (5902958103587057, 2 ** 69) and (1e5).as_integer_ratio() == (100000, 1)
@@ -89,6 +100,15 @@ def _mk(t, lab, ids, rate, bin_, win, sym, ldt='int64', tdt='float64', symdef=Fa
 def _mkr(lab, ids, bin_, dur, ldt='int64'):
     return {'kind': 'rate', 'inp': {'lab': list(lab), 'ids': None if ids is None else list(ids),
                                     'bin': _fr(bin_), 'dur': None if dur is None else _fr(dur), 'ldt': ldt}}
+
+
+def _mkc(n, s, c, rate, bin_, win, sym):
+    """n spikes at sample s, all of cluster c, cluster_ids=[c] (Corr: InCoinc, closed form of C15_coincident)"""
+    assert _params_ok(rate, bin_, win) and 0 <= n and 0 <= c < 2 ** 20
+    inp = {'n': n, 's': s, 'c': c, 'rate': _fr(rate), 'bin': _fr(bin_), 'win': _fr(win), 'sym': bool(sym),
+           't': [s], 'lab': [c] * min(n, 1), 'ids': [c]}      # t/lab/ids: for _times_ok, dist and size only
+    assert _times_ok(inp)
+    return {'kind': 'coinc', 'inp': inp}
 
 
 def _trains(kmax, gmax):
@@ -138,6 +158,15 @@ def generate(tier, rng):
                          F(1, 16), F(1, 4), sym, tdt='float32'))
         cases.append(_mk([0, 2, 2, 5], [4, 1, 4, 1], [1, 4], 1, 2, 4, sym, tdt='list'))
         cases.append(_mk([0, 0, 1, 3], [4, 1, 4, 1], [1, 4], 1, 1, 2, sym, symdef=True))   # symmetrize left to its default
+    # coincident spikes of one cluster against the closed form (n <= 64: Corr also evaluates the model on them)
+    for sym in (False, True):
+        for n, s_, c, rate, b, w in ((0, 0, 0, 1, 1, 1), (1, 3, 7, 1, 1, 2), (2, 0, 0, 1, 1, 1), (5, -4, 3, 2, 1, 5),
+                                     (64, 6, 11, 3, F(1, 2), 3), (65, 0, 0, 1, 2, 8), (300, 1000, 2, 1, 3, 7)):
+            cases.append(_mkc(n, s_, c, rate, b, w, sym))
+        if tier == 'thorough':
+            cases.append(_mkc(3000, 0, 5, 1, 1, 1, sym))
+        if BIG and tier != 'search':
+            cases.append(_mkc(65537, 0, 0, 1, 1, 1, sym))
     for ids in ([4, 1, 9], [9, 4, 1], [4, 9, 1], [1, 4], None):
         cases.append(_mkr([4, 1, 4, 4], ids, F(1, 4), 2))
     cases.append(_mkr([], [4, 1], 1, 1))
@@ -320,7 +349,7 @@ _TIMEOUTS = 0
 
 def run_case(case):
     global _TIMEOUTS
-    if _TIMEOUTS >= 2:
+    if _TIMEOUTS >= 2 and case['kind'] != 'coinc':
         import signal
         # 2..9 time-outs in this worker: 0.5 s per case; 10..39: 0.1 s; 40 and more: 0.03 s (x10 for trains > 64 spikes)
         lim = 0.5 if _TIMEOUTS < 10 else 0.1 if _TIMEOUTS < 40 else 0.03
@@ -367,6 +396,20 @@ def _run_case(case):
         if out.ndim != 3 or out.dtype.kind not in 'iu':
             raise TypeError('correlograms returned ndim=%d dtype=%s' % (out.ndim, out.dtype))
         return ('ccg', [int(x) for x in out.shape], [[[int(v) for v in c] for c in row] for row in out])
+    if k == 'coinc':
+        from phylib.stats.ccg import correlograms
+        rate = F(*i['rate'])
+        x = F(i['s']) / rate
+        b, w = F(*i['bin']), F(*i['win'])
+        if F(float(x)) != x or F(float(x) * float(rate)) != i['s'] or F(float(b)) != b or F(float(w)) != w:
+            return ('regime', 'coincident case not exact')
+        out = correlograms(np.full(i['n'], float(x), dtype=np.float64), np.full(i['n'], i['c'], dtype=np.int64),
+                           cluster_ids=[i['c']], sample_rate=float(rate), bin_size=float(b), window_size=float(w),
+                           symmetrize=i['sym'])
+        out = np.asarray(out)
+        if out.ndim != 3 or out.dtype.kind not in 'iu':
+            raise TypeError('correlograms returned ndim=%d dtype=%s' % (out.ndim, out.dtype))
+        return ('ccg', [int(x) for x in out.shape], [[[int(v) for v in c] for c in row] for row in out])
     if k == 'rate':
         from phylib.stats.ccg import firing_rate
         b = F(*i['bin'])
@@ -403,6 +446,10 @@ def encode(case, obs):
         cin = q.app('InCCG', q.zl(i['t']), q.zl(i['lab']), _ids(i['ids']), _qq(i['rate']), _qq(i['bin']),
                     _qq(i['win']), q.b(i['sym']))
         cobs = 'ObsCrash' if crash else q.app('ObsCCG', q.zl(obs[1]), q.lst(obs[2], q.zll))
+    elif k == 'coinc':
+        cin = q.app('InCoinc', q.z(i['n']), q.z(i['s']), q.z(i['c']), _qq(i['rate']), _qq(i['bin']), _qq(i['win']),
+                    q.b(i['sym']))
+        cobs = 'ObsCrash' if crash else q.app('ObsCCG', q.zl(obs[1]), q.lst(obs[2], q.zll))
     elif k == 'rate':
         cin = q.app('InRate', q.zl(i['lab']), _ids(i['ids']), _qq(i['bin']),
                     'None' if i['dur'] is None else '(Some %s)' % _qq(i['dur']))
@@ -419,7 +466,7 @@ def encode(case, obs):
 def nontrivial(case, obs):
     if obs[0] == 'crash':
         return False
-    if case['kind'] == 'ccg':
+    if case['kind'] in ('ccg', 'coinc'):
         return any(v for row in obs[2] for c in row for v in c)
     return len(case['inp']['lab']) >= 2
 
@@ -433,6 +480,10 @@ def dist(case, obs):
     out = ['kind=' + k]
     if obs[0] == 'crash':
         out.append('crash=' + obs[1])
+        return out
+    if k == 'coinc':
+        out.append('coinc.n_spikes=' + ('65537' if i['n'] == 65537 else _bucket(i['n'])))
+        out.append('coinc.symmetrize=%s' % i['sym'])
         return out
     ids = i['ids']
     labs = set(i['lab'])
@@ -470,6 +521,8 @@ def dist(case, obs):
 
 def size(case):
     i = case['inp']
+    if case['kind'] == 'coinc':
+        return i['n'] * 10
     return len(i['lab']) * 10 + len(i['ids'] or []) + sum(abs(x) for x in i.get('t', [])) // 10
 
 
@@ -501,6 +554,15 @@ def shrink(case):
 
 def _shrink_raw(case):
     k, i = case['kind'], case['inp']
+    if k == 'coinc':
+        # fewer spikes (a 65537-spike candidate costs a minute: only two candidates per round)
+        for m in sorted({i['n'] // 2, i['n'] - 1}):
+            if 0 <= m < i['n']:
+                j = dict(i)
+                j['n'] = m
+                j['lab'] = [i['c']] * min(m, 1)
+                yield {'kind': k, 'inp': j}
+        return
     n = len(i['lab'])
     # drop a spike (halves first, then single spikes)
     cuts = []
@@ -573,6 +635,15 @@ def repro(case):
     pre = ("import sys; sys.path[:0] = ['/verif/harness', '/repo']\n"
            "from vt import npshim; npshim.setup_process()\n"
            "import numpy as np\nfrom fractions import Fraction as F\n")
+    if k == 'coinc':
+        return pre + (
+            "from phylib.stats.ccg import correlograms\n"
+            "n, rate = %d, F(%d, %d)\n"
+            "c = correlograms(np.full(n, float(F(%d) / rate)), np.full(n, %d, dtype=np.int64), cluster_ids=[%d],\n"
+            "                 sample_rate=float(rate), bin_size=%r, window_size=%r, symmetrize=%r)\n"
+            "print(c.dtype, c.shape, c)   # the only non-zero entry (zero lag) must be n * (n - 1) // 2 =\n"
+            "print(n * (n - 1) // 2)\n" % (i['n'], i['rate'][0], i['rate'][1], i['s'], i['c'], i['c'],
+                                            float(F(*i['bin'])), float(F(*i['win'])), i['sym']))
     if k == 'ccg':
         return pre + (
             "from phylib.stats.ccg import correlograms\n"
